@@ -333,7 +333,6 @@ def run_case (case, rep):
                (i, port, s_dst.hex(), ports, want))
           return False
     # learn (the model of what this switch/controller pair has seen)
-    seen[i].setdefault(s_src, set()).add(port)
     # (a frame served from the table leaves the controller out - which excuses
     #  a later stale delivery only if the controller had a chance to know the
     #  port: a table hit on a port where the address had never been seen
